@@ -381,7 +381,8 @@ fn step(ctx: &Ctx, init: (usize, usize), hist: &[Op], m: &Model, op: &Op) -> Opt
     m2.apply(op);
     let opname = format!("{:?}", op);
     let opname = opname.split('(').next().unwrap().to_string();
-    let r = apply_real(&mut bm, op, m).and_then(|_| observe(&bm, &m2));
+    let describe = || (format!("C09/{}", opname), format!("{:?} on (byte_size {}, page {}, set {:?})", op, m.byte_size, m.page, m.set), replay_json(init, hist, op));
+    let r = crate::crash::guarded(ctx, &describe, || apply_real(&mut bm, op, m).and_then(|_| observe(&bm, &m2)))?;
     if let Err((k, d)) = r {
         let key = format!("C09/{}/{}", opname, k);
         let rp = if ctx.has_failed(&key) { Value::Null } else { replay_json(init, hist, op) };
